@@ -1,6 +1,7 @@
 package props
 
 import (
+	"encoding/binary"
 	"bytes"
 	"fmt"
 	"sync"
@@ -337,6 +338,16 @@ func runC13Server(c *ev.Case, ctx *lib.Ctx, variant int) {
 		}
 		if oh, or := peer.Find(dwa, peer.OriginHost), peer.Find(dwa, peer.OriginRealm); len(oh) != 1 || string(oh[0]) != "srv.local" || len(or) != 1 || string(or[0]) != "realm.local" {
 			c.Fail(ev.Sig{"op": "dwa-identity", "role": "server"}, dwa, nil, "DWA identity %q / %q", oh, or)
+			return
+		}
+		// the local identity includes the configured Origin-State-Id (as in the state machine's CER, CEA and DWR)
+		if settings.OriginStateID != 0 {
+			if os := peer.Find(dwa, peer.OriginState); len(os) != 1 || len(os[0]) != 4 || binary.BigEndian.Uint32(os[0]) != uint32(settings.OriginStateID) {
+				c.Fail(ev.Sig{"op": "dwa-origin-state-id", "role": "server"}, dwa, nil, "Settings.OriginStateID=%d, the DWA carries Origin-State-Id %x", settings.OriginStateID, os)
+				return
+			}
+		} else if os := peer.Find(dwa, peer.OriginState); len(os) != 0 {
+			c.Fail(ev.Sig{"op": "dwa-origin-state-id", "role": "server"}, dwa, nil, "no Origin-State-Id configured, the DWA carries %x (the peer's?)", os)
 			return
 		}
 		c.Event("dwas_checked", 1)
